@@ -35,8 +35,12 @@ class Check(PropertyCheck):
         lines = ["new", instance_line(jobs), gen.filter_line(f)]
         kinds = ["makespan_reward", "idle_reward"] + rng.sample(["history", "recorder", "unscheduled"], rng.randint(0, 2))
         rng.shuffle(kinds)
-        for k in kinds:
-            lines.append("obs " + k)
+        for idx, k in enumerate(kinds):
+            if rng.random() < 0.25:
+                # constructed with subscribe=False and subscribed by hand afterwards: still one reward per dispatch
+                lines += ["obsn " + k, f"resub {idx}"]
+            else:
+                lines.append("obs " + k)
         tr = gen.Tracker(jobs)
         M = slices.num_machines_of(jobs)
         n_acc = 0
